@@ -9,7 +9,8 @@ template <class T> static void run_T(Choice &c, Ctx &cx)
     FactorProblem<T> P = gen_factor_problem<T>(c, cx, cx.tier, true, true, &G);
     int n = P.n, k = std::min(P.m, P.n);
     // configurations
-    static const int fills[] = {5, 1, 2, 3, 30, 1, 2, 20};
+    static const int fills_any[] = {5, 1, 2, 3, 30, 1, 2, 20}, fills_stress[] = {1, 1, 2, 1, 1, 2, 1, 3};
+    const int *fills = P.stress ? fills_stress : fills_any;
     std::vector<StorageCfg> cfgs;
     StorageCfg base; base.fill = fills[c.below(8)]; cfgs.push_back(base);
     int nsys = 1 + (int)c.below(3), nuser = 1 + (int)c.below(4);
@@ -79,7 +80,7 @@ template <class T> static void run_T(Choice &c, Ctx &cx)
             if (o.for_lu != b.for_lu) { cx.fail("mem-usage", fmt("for_lu differs between storage configurations: %.9g vs %.9g", (double)o.for_lu, (double)b.for_lu)); return; }
         }
         expcounts.insert(o.expansions);
-        if (cf.lwork > 0) { ++user_ok; cx.label(cf.misalign ? "user-ok(base%8=4)" : "user-ok(aligned)"); }
+        if (cf.lwork > 0) { ++user_ok; cx.label(cf.misalign ? "user-ok(base%8=4)" : "user-ok(aligned)"); if (o.grew & 2) cx.label("user:U-arrays-grew-in-workspace"); if (o.grew & 4) cx.label("user:L-subscripts-grew-in-workspace"); if (o.grew & 1) cx.label("user:L-values-grew-in-workspace"); }
     }
     cx.label(fmt("distinct-expansion-counts=%zu", std::min<size_t>(expcounts.size(), 4)));
     if (b.multi) cx.label("supernodes=multi");
